@@ -29,6 +29,7 @@ static struct {
     int n, nissuers;
     volatile int units_done, go;
     long lost_checks, concurrent_reqs;
+    long via_xstream, via_sched;
 } S;
 
 static int pool_index(ABT_pool p)
@@ -63,7 +64,26 @@ static void request(mu *u, int pool, int who)
         return;
     uint64_t inv = sim_steps();
     u->inflight_pool = pool;
-    int rc = ABT_thread_migrate_to_pool(u->th, S.rt.pools[pool]);
+    /* the same request can be expressed through a stream or its main scheduler when the pool
+     * is that scheduler's first pool (the default migration pool) */
+    int via = 0, es = -1;
+    for (int e = 0; e < S.rt.nes; e++)
+        if (S.rt.es_first_pool[e] == pool && sim_rand_n(SIM_RS_CHAOS, 3) == 0) {
+            es = e;
+            via = 1 + (int)sim_rand_n(SIM_RS_CHAOS, 2);
+            break;
+        }
+    int rc;
+    if (via == 1) {
+        rc = ABT_thread_migrate_to_xstream(u->th, S.rt.xs[es]);
+        S.via_xstream++;
+    } else if (via == 2) {
+        ABT_sched sc;
+        ABT_OK(ABT_xstream_get_main_sched(S.rt.xs[es], &sc));
+        rc = ABT_thread_migrate_to_sched(u->th, sc);
+        S.via_sched++;
+    } else
+        rc = ABT_thread_migrate_to_pool(u->th, S.rt.pools[pool]);
     u->inflight_pool = -1;
     if (rc == ABT_SUCCESS) {
         mreq *r = &u->R[u->nreq];
@@ -74,7 +94,7 @@ static void request(mu *u, int pool, int who)
         u->nreq++; /* published last: the checker only looks at complete records */
         u->accepted++;
     } else
-        SIM_CHECK(rc == ABT_ERR_MIGRATION_TARGET, "migrate:error-code", "ABT_thread_migrate_to_pool returned %d", rc);
+        SIM_CHECK(rc == ABT_ERR_MIGRATION_TARGET, "migrate:error-code", "%s returned %d", via == 1 ? "ABT_thread_migrate_to_xstream" : via == 2 ? "ABT_thread_migrate_to_sched" : "ABT_thread_migrate_to_pool", rc);
     sim_progress();
 }
 
@@ -282,6 +302,7 @@ static void run_c13(void)
     }
     sim_count("c13.requests_checked_must_be_honoured", (uint64_t)S.lost_checks);
     sim_count("c13.requests_overlapping_scheduling_point", (uint64_t)S.concurrent_reqs);
+    sim_count("c13.requests_via_xstream_or_sched", (uint64_t)(S.via_xstream + S.via_sched));
     wl_rt_stop(rt);
 }
 SIM_WORKLOAD("C13", "migrate-race", run_c13, 10)
